@@ -32,7 +32,10 @@ pub fn send(mem: &mut Memory, args: &[GcRef], _env: GcRef, recursion_depth: usiz
         else {
             return Err(invalid_plist_error);
         };
-        let value = crate::native::print::print(mem, &[d[1].clone()], GcRef::nil(), recursion_depth + 1).ok().and_then(|x| list_to_string(x)).unwrap_or("#<ERROR: CANNOT CONVERT TO STRING>".to_string());
+        let Some(v) = d.get(1) else {
+            return Err(invalid_plist_error);
+        };
+        let value = crate::native::print::print(mem, &[v.clone()], GcRef::nil(), recursion_depth + 1).ok().and_then(|x| list_to_string(x)).unwrap_or("#<ERROR: CANNOT CONVERT TO STRING>".to_string());
         dm.insert(key, value);
     }
 
